@@ -258,6 +258,8 @@ def _run(check: PropertyCheck, driver_module: str, tier: str, seed: int, t0: flo
                                             origin="recorded"), v))
                 else:
                     whole["foreign_rejections"] += 1
+                    print(f"NOTE: whole-run monitor Ropt.tla rejected run {features.get('name')} at event {v['l']} with clause "
+                          f"{v['clause']} (not a clause of {prop}; reported by the owning property's check, if any)")
     # ---- report
     rc = 0
     for f in findings:
